@@ -75,7 +75,7 @@ inline Bytes pppoe_random(Rng& r, bool& session) {
 inline Bytes l4_random(Rng& r, const Addr& s, const Addr& d, uint8_t& proto, std::string& desc) {
     const Fixtures& fx = Fixtures::get();
     if (s.is6() && r.chance(0.2)) { proto = 58; desc += "/icmpv6-nd"; return icmp6_nd(r, s, d); }
-    if (s.is6() && r.chance(0.06)) { proto = 58; desc += "/icmpv6-mld2"; return icmp6_mld2(r, s, d); }
+    if (s.is6() && r.chance(0.12)) { proto = 58; desc += "/icmpv6-mld2"; return icmp6_mld2(r, s, d); }
     int k = (int)r.below(s.is6() ? 9 : 12);
     switch (k) {
         case 0: { proto = 6; TcpSeg t; t.sport = (uint16_t)r.next(); t.dport = (uint16_t)r.next(); t.seq = (uint32_t)r.next(); t.ack = (uint32_t)r.next(); t.flags = (uint8_t)r.next() & 0x3f; t.win = (uint16_t)r.next();
@@ -174,8 +174,9 @@ inline Frame frame_for(Rng& r, int dlt) {
 // ---- faults a wire or a disk can apply to a frame; returns a description
 inline std::string corrupt(Rng& r, Bytes& b) {
     if (b.empty()) { b.push_back((uint8_t)r.next()); return "grow-from-empty"; }
-    int k = (int)r.below(9);
+    int k = (int)r.below(10);
     switch (k) {
+        case 9: { size_t n = (size_t)r.range(1, (int64_t)std::min<size_t>(b.size(), 16)); b.resize(b.size() - n); return fmt("truncate-tail-%zu", n); }      /* the last field(s) missing: what trailing-length checks are for */
         case 0: { int n = (int)r.range(1, 3); for (int i = 0; i < n; ++i) { size_t p = r.chance(0.6) ? r.below(std::min<size_t>(b.size(), 64)) : r.below(b.size()); b[p] ^= (uint8_t)(1u << r.below(8)); } return fmt("bitflip x%d", n); }
         case 1: { size_t p = r.chance(0.6) ? r.below(std::min<size_t>(b.size(), 64)) : r.below(b.size()); const uint8_t vals[6] = { 0, 1, 0x7f, 0x80, 0xff, 0xfe }; b[p] = vals[r.below(6)]; return fmt("byte@%zu=boundary", p); }
         case 2: { size_t n = r.below(b.size()); b.resize(n); return fmt("truncate->%zu", n); }
